@@ -266,6 +266,54 @@ func cmdStopFlush(f hx.Flags, r *hx.Result) {
 		}
 		r.Eval(1)
 	}
+	// direct construction of the rolling-file logger, sync and async, with and without separate file
+	for i, async := range []bool{false, true, false, true} {
+		sep := i >= 2
+		dir := filepath.Join(tmp, fmt.Sprintf("direct-rfl-%d", i))
+		_ = os.MkdirAll(dir, 0o755)
+		rf := &log.RollingFileLogger{
+			LoggerBase: log.LoggerBase{Name: "d", Level: log.LevelRange{MinLevel: log.InfoLevel, MaxLevel: log.MaxLevel}},
+			FileDir:    dir, FileName: "app.log", Separate: sep, Rotation: log.TimeRotation{Interval: time.Hour}, MaxAge: 10,
+			AsyncWrite: async, BufferSize: 100, BufferFullPolicy: log.BufferFullPolicyBlock,
+		}
+		if i%2 == 0 {
+			rf.Layout = &log.JSONLayout{BaseLayout: log.BaseLayout{FileLineLength: 48}}
+		}
+		desc := map[string]any{"direct": "RollingFileLogger", "async": async, "separate": sep, "layout": rf.Layout != nil}
+		if ret, p := hx.Within(10*time.Second, func() {
+			if err := rf.Start(); err != nil {
+				panic(err)
+			}
+			for k := 1; k <= 150; k++ {
+				e := log.GetEvent()
+				e.Level, e.Time, e.Tag = []log.Level{log.InfoLevel, log.ErrorLevel}[k%2], time.Now(), "t"
+				e.Fields = []log.Field{log.Int("id", int64(k))}
+				rf.Append(e)
+			}
+			rf.Stop()
+		}); !ret || p != nil {
+			r.Violate("blocked:direct-rolling-logger", desc, "Start/Append/Stop returned=%v panic=%v", ret, p)
+			continue
+		}
+		content := readAll(dir)
+		seen := map[int64]int{}
+		for _, line := range strings.Split(content, "\n") {
+			if line != "" {
+				id, _ := sys.ParseLine([]byte(line))
+				seen[id]++
+			}
+		}
+		for k := int64(1); k <= 150; k++ {
+			if seen[k] != 1 {
+				r.Violate("not-flushed:direct-rolling-logger", desc, "event %d occurs %d times in the files after Stop returned", k, seen[k])
+				break
+			}
+		}
+		if fds := openUnder(dir); len(fds) > 0 {
+			r.Violate("fd-leak:direct-rolling-logger", desc, "descriptors still open after Stop: %v", fds)
+		}
+		r.Eval(150)
+	}
 	log.Destroy()
 	log.VerifReset()
 }
